@@ -49,6 +49,7 @@ pub fn crashes(ctx : &Ctx, out : &mut Out)
         for rule in &sc.rules { for s in &rule.sources { if sc.owner(s).is_none() { leaves.insert(s.clone()); } } }
         for l in leaves.iter() { user(Op::Write(l.clone(), r.pick(scenario::CONTENTS).as_bytes().to_vec()), &mut prep); }
         let state = r.below(7);
+        let mut reedit : Option<(String, Vec<u8>)> = None;
         out.count(&format!("prior:{}", ["fresh", "built", "built-edited", "built-cleaned", "built-tampered", "built-edited-built-reverted", "built-edited-built-reverted"][state]));
         if state >= 1 { driver.invoke(&Op::Build(None), Policy::Serial); driver.tick(); prep.push(Op::Build(None)); }
         match state
@@ -66,6 +67,7 @@ pub fn crashes(ctx : &Ctx, out : &mut Out)
                     user(Op::Write(l.clone(), b"changed".to_vec()), &mut prep);
                     driver.invoke(&Op::Build(None), Policy::Serial); driver.tick(); prep.push(Op::Build(None));
                     user(Op::Write(l.clone(), original), &mut prep);
+                    reedit = Some((l.clone(), b"changed".to_vec()));
                 }
             },
             _ => {},
@@ -155,6 +157,31 @@ pub fn crashes(ctx : &Ctx, out : &mut Out)
             {
                 v.message = format!("after being killed before `{}`: {}", what, v.message);
                 v.replay = replay.clone();
+            }
+            // a second way on from the same crash state: the user first goes back to the other version of the source
+            // (whose outputs the killed build was just displacing), then builds: what the table still remembers
+            // about the displaced files must not be applied to the recovered ones
+            if let Some((leaf, content)) = &reedit
+            {
+                let d2 = Driver{sys : MemSys::from_disk(disk.clone(), ClockMode::Fine, clock), record_snapshots : false};
+                let mut tr2 = Tracker::new("crash", true);
+                tr2.scenario = Some(sc.clone());
+                tr2.ever_targets = targets.clone();
+                let edit = Op::Write(leaf.clone(), content.clone());
+                d2.user(&edit); d2.tick();
+                let rec2 = d2.invoke(&next, Policy::Serial);
+                let mut all2 = prep.clone();
+                all2.push(op.clone()); all2.push(edit.clone()); all2.push(next.clone());
+                let nviol2 = out.violations.len();
+                monitor_invocation(out, &mut tr2, &rec2, &next, false, 1_000_000, &all2);
+                for v in out.violations[nviol2..].iter_mut()
+                {
+                    v.message = format!("after being killed before `{}`, then {}: {}", what, edit.describe(), v.message);
+                    let mut rj = replay.clone();
+                    rj.set("then", Json::s(&edit.describe()));
+                    v.replay = rj;
+                }
+                out.count("recovery:after-re-edit");
             }
             match &rec.verdict
             {
